@@ -129,4 +129,8 @@ Theorems ==
 
 VocabUri == {<<>>, <<97>>, DOT, DOTDOT, <<98, 58, 99>>, <<37, 50, 101>>}
 VocabIri == {<<>>, <<97>>, DOT, DOTDOT, <<98, 58, 99>>, <<37, 50, 101>>, <<233>>, <<97, 46, 46>>}
+\* thorough: escaped dot segments (%2E%2E, .%2e), characters whose UTF-8 continuation bytes are 0xAF / 0xBF / 0xA3
+VocabIriBig == VocabIri \cup {<<37, 50, 69, 37, 50, 69>>, <<46, 37, 50, 101>>, <<239>>, <<255>>, <<163>>}
+\* quick: a second, small vocabulary with those segments
+VocabPct == {<<97>>, DOTDOT, <<37, 50, 69, 37, 50, 69>>, <<46, 37, 50, 101>>, <<239>>, <<255, 163>>}
 =============================================================================
